@@ -258,20 +258,23 @@ class _Args:
 def c_cli(path: str, target: str, no_dump: bool, v: bool, mode_i: int) -> bool:
     """
     run_for_file forwards the command-line settings: dump = not --no-dump, dump_path = -t,
-    output_mode = -o, file path unchanged.
+    output_mode = -o, file path unchanged.  The arguments object comes from the command's own
+    argparse parser (so options added to the command keep their defaults); settings the
+    property does not mention may be forwarded too.
 
-    pre: len(path) <= 3 and len(target) <= 3
+    pre: 1 <= len(path) <= 3 and 1 <= len(target) <= 3
+    pre: not path.startswith("-") and not target.startswith("-")
     pre: 0 <= mode_i < 15
     post: _
     """
     seen = {}
 
-    def fake_parse(fp, **kw):
-        seen["fp"], seen["kw"] = fp, kw
+    def fake_parse(fp, *pos, **kw):
+        seen["fp"], seen["pos"], seen["kw"] = fp, pos, kw
         return []
 
-    a = _Args()
-    a.ddl_file_path, a.target, a.no_dump, a.v, a.output_mode = path, target, no_dump, v, VALID_MODES[mode_i]
+    argv = [path, "-t", target, "-o", VALID_MODES[mode_i]] + (["--no-dump"] if no_dump else []) + (["-v"] if v else [])
+    a = cli_mod.cli().parse_args(argv)
     old, oldpp = cli_mod.parse_from_file, cli_mod.pprint.pprint
     cli_mod.parse_from_file = fake_parse
     cli_mod.pprint.pprint = lambda *x, **k: None
@@ -280,7 +283,8 @@ def c_cli(path: str, target: str, no_dump: bool, v: bool, mode_i: int) -> bool:
     finally:
         cli_mod.parse_from_file = old
         cli_mod.pprint.pprint = oldpp
-    return seen["fp"] == path and seen["kw"] == {"dump": not no_dump, "dump_path": target, "output_mode": VALID_MODES[mode_i]}
+    want = {"dump": not no_dump, "dump_path": target, "output_mode": VALID_MODES[mode_i]}
+    return seen.get("fp") == path and seen.get("pos") == () and all(k in seen["kw"] and seen["kw"][k] == x for k, x in want.items())
 
 
 MAIN_NAMES = ["a.sql", "b", "c.d.hql", "e.ddl", "f.txt", ".bql", "g.sql.bak"]
@@ -500,48 +504,52 @@ def api_c_nofiles(mi, group, json_dump, via_file):
     return detail
 
 
-def c_dump_file(kind: int, nm: int) -> bool:
+DUMP_NAMES = ["x", "a.b", "in put", "UPPER_lower"]
+DUMP_DATA = [[{"table_name": "t", "columns": []}], {"tables": [{"table_name": "t"}], "types": []}, {"table_name": "t", "columns": []}, []]
+
+
+def _dump_file_case(kind, nm, dir_exists):
+    import json
+    import shutil
+    import tempfile
+    import simple_ddl_parser.output.core as core
+    root = tempfile.mkdtemp(prefix="vfdump-")
+    try:
+        target = os.path.join(root, "out")
+        if dir_exists:
+            os.makedirs(target)
+        core.dump_data_to_file(DUMP_NAMES[nm], target, DUMP_DATA[kind])
+        made = _tree(root)
+        want = sorted(["out", os.path.join("out", DUMP_NAMES[nm] + "_schema.json")])
+        ok = made == want
+        if ok:
+            with open(os.path.join(target, DUMP_NAMES[nm] + "_schema.json")) as f:
+                ok = json.load(f) == DUMP_DATA[kind]
+        return ok, {"created": made, "expected": want}
+    finally:
+        shutil.rmtree(root, ignore_errors=True)
+
+
+def c_dump_file(kind: int, nm: int, dir_exists: bool) -> bool:
     """
     dump_data_to_file writes exactly the JSON encoding of what it is given - a list (flat
-    result), a dict (group_by_type result) or a single table dict - into <dir>/<name>_schema.json.
+    result), a dict (group_by_type result), a single table dict or an empty list - into
+    <dir>/<name>_schema.json (name verbatim), creating the directory when needed, and nothing else
+    (real file system: fresh temporary directory, native execution; the solver chooses the case).
 
-    pre: 0 <= kind <= 2
-    pre: 0 <= nm <= 2
+    pre: 0 <= kind < len(DUMP_DATA)
+    pre: 0 <= nm < len(DUMP_NAMES)
     post: _
     """
-    import json
-    import simple_ddl_parser.output.core as core
-    name = ["x", "a.b", "in put"][nm]
-    written = {}
-
-    class W:
-        def __init__(self, p):
-            self.p = p
-            written[p] = ""
-
-        def write(self, s):
-            written[self.p] += s
-
-        def __enter__(self):
-            return self
-
-        def __exit__(self, *a):
-            return False
-
-    data = [[{"table_name": "t", "columns": []}], {"tables": [{"table_name": "t"}], "types": []}, {"table_name": "t", "columns": []}][kind]
-    old = (core.__dict__.get("open"), core.os.path.isdir, core.os.makedirs)
-    core.open = lambda p, mode="r": W(p)
-    core.os.path.isdir = lambda p: True
-    try:
-        core.dump_data_to_file(name, "dir", data)
-    finally:
-        core.os.path.isdir, core.os.makedirs = old[1], old[2]
-        if old[0] is None:
-            del core.open
-        else:
-            core.open = old[0]
-    return list(written) == ["dir/" + name + "_schema.json"] and json.loads(written["dir/" + name + "_schema.json"]) == data
+    from crosshair.auditwall import opened_auditwall
+    from crosshair.core import realize
+    from crosshair.tracers import NoTracing
+    kind, nm, dir_exists = realize(kind), realize(nm), realize(dir_exists)
+    with NoTracing(), opened_auditwall():
+        return _dump_file_case(kind, nm, dir_exists)[0]
 
 
-def api_c_dump_file(kind, nm):
-    return api_c_dump(1, True, "ab", "sql", True, kind == 1)
+def api_c_dump_file(kind, nm, dir_exists):
+    ok, detail = _dump_file_case(kind, nm, dir_exists)
+    detail.update({"name": DUMP_NAMES[nm], "data": DUMP_DATA[kind], "target_exists_before": dir_exists, "reproduced": not ok})
+    return detail
